@@ -151,7 +151,8 @@ Theorem C18_spellings_that_mean_the_same : forall parse_float regex_match,
   (forall i g0 a o b g1 lit, same_step parse_float regex_match (FC i o lit) (FCS i g0 a o b g1 lit)) /\
   (forall x y, same_step parse_float regex_match x y -> same_step parse_float regex_match (FR x) (FR y)) /\
   (forall i g0 gn g1, same_step parse_float regex_match (FE i) (FES false g0 gn i g1) /\ same_step parse_float regex_match (FN i) (FES true g0 gn i g1)) /\
-  (forall g0 d, same_step parse_float regex_match (FQ (unspace_dnf d)) (FQS g0 d)).
+  (forall g0 d, same_step parse_float regex_match (FQ (unspace_dnf d)) (FQS g0 d)) /\
+  (forall t, same_step parse_float regex_match (FT t) (FT (TP t))).
 Proof.
   intros pf rm.
   split; [intros q k; split; [apply same_plain|apply same_rec]; intros lv; apply name_spellings|].
@@ -165,7 +166,8 @@ Proof.
   split; [intros i g0 a o b g1 lit; apply spaced_comparison_spellings|].
   split; [intros x y H; apply rec_filter_spellings; exact H|].
   split; [intros i g0 gn g1; apply spaced_filter_spellings|].
-  intros g0 d. apply spaced_query_spellings.
+  split; [intros g0 d; apply spaced_query_spellings|].
+  intros t. apply parenthesised_query_spellings.
 Qed.
 Print Assumptions C18_spellings_that_mean_the_same.
 
